@@ -64,6 +64,11 @@ claimed = {
          "All glyph programs of <= 3 segments over a 30-segment alphabet chosen from the encoder's case analysis (lines with zero/non-zero deltas, degenerate lines, curves with all 16 zero/non-zero patterns of the outer deltas, flex-like couples, moves; fractional deltas) from two start points; periodic runs (period <= 3 over 8 segment types with steps such as 0.1, 1/3, 1/7) of lengths 1..60 crossing the 48-entry stack limit; stem counts {0,1,2,23,24,25,47,48,96} per direction x four mask placements x own/default width; all 7^4 width assignments of a 4-glyph font incl. fractional widths. Font.Write's output is walked by refcff, every charstring executed by reft2 in strict mode (legal operand counts, stack <= 48, endchar, nothing after it) and compared with the source glyph with an absolute tolerance of 2^-16 per coordinate.",
          "reft2/refcff are the trusted base (each stem operator restarts at 0, as in FreeType); coordinates within +-32000.",
          "DESIGN.md 4/C04"),
+ "C13": ("model_checking",
+         "bounded exhaustive enumeration of cff.Font values; field-by-field round trip plus an independent walk of the bytes",
+         "Simple fonts: glyph counts {1,2,3,229,230,300} x four name sets (forcing charset formats 0/1/2 and SID/custom strings, 1- and 127-character names) x five encodings (standard, none, sparse, multiply encoded, all 256 codes) x three charstring payload sizes; INDEX bodies swept through 300 consecutive sizes around 255 (String, Name, CharStrings INDEX) and around 65535; full 256-code encodings in k ranges for k in {1,2,3,127,128,129,200,254,255}. CID-keyed fonts: all FDSelect functions on 5 glyphs -> 1..3 font dicts, 256 font dicts, three GID->CID maps, font matrices, supplements; all 5^4 width assignments over 2 private dicts. DICT numbers: integers at every size-class boundary +-1, reals incl. 1.23456789e-20 and -7.5e12 through BlueScale/StdHW/ItalicAngle/underline/FontMatrix. Read(Write(F)) is compared field by field; refcff walks the bytes (offsets monotone, minimal offSize, DICT operands, charset / encoding / FDSelect) and reft2 re-derives the widths.",
+         "Domain: CIDs < 65536, encodings obey the documented contiguity rule, BlueScale in [0,1] and not within 1e-6 of the default, StdHW in [0,10000], italic angles within +-90 degrees.",
+         "DESIGN.md 4/C13"),
 }
 checks = []
 na = []
